@@ -40,6 +40,7 @@ BOUNDS = {
     "rule lists": "by id, by name, both, 'any', 'ANY', empty list, unknown reference, other rule's id, id in upper case",
     "names/conditions": "rule detection name sets x 8 rule condition forms x filter detection name sets x 9 filter condition forms (see RULE_NAMES, FILTER_NAMES, RCONDS, FCONDS); 1 or 2 stacked filters; 3 draws of the internal prefix incl. one colliding with a rule detection name",
     "thorough": "the names/conditions/stacking/draw space crossed with the 9 category relations (filter/rule category absent or one of two values) and 4 rule-list forms",
+    "shared filters": "one or two stacked filters with rules 'any' applied to TWO rules of one collection (12 x 4 rule sets x 11 filter sets x 2 draws), with and without a pipeline that prefixes every field name",
     "outside": "other names / condition shapes; filters on correlation rules (never applied by design); more than 2 stacked filters",
 }
 ASSUMPTIONS = [
@@ -108,7 +109,7 @@ def filter_formula(fdoc):
     return S._subst(RC.parse(flt["condition"], names), env)
 
 
-def convert_docs(docs, draw):
+def convert_docs(docs, draw, pipeline=None):
     import sigma.filters as F
 
     saved = F.random.choices
@@ -124,6 +125,10 @@ def convert_docs(docs, draw):
     try:
         coll = SigmaCollection.from_dicts(copy.deepcopy(docs))
         b = make_backend(0)
+        if pipeline is not None:
+            from sigma.processing.pipeline import ProcessingPipeline
+
+            b.processing_pipeline = ProcessingPipeline.from_dict(copy.deepcopy(pipeline))
         b.convert(coll)
         return {r.title: list(r.get_conversion_result()) for r in coll.rules}
     finally:
@@ -176,6 +181,80 @@ def check(rs: int, fs: int, fls, rls, rules_form: int, stacked: bool, draw: int)
     return True
 
 
+# ---------------------------------------------------------------- one filter, several rules, a pipeline
+PREFIX_PIPE = {"name": "p", "priority": 1, "transformations": [{"type": "field_name_prefix", "prefix": "win."}]}
+
+
+def _prefixed(f, prefix):
+    k = f[0]
+    if k == "atom":
+        a = f[1]
+        if a[0] == "glob":
+            return ("atom", (a[0], a[1], prefix + a[2], a[3]))
+        if a[0] in ("num", "null"):
+            return ("atom", (a[0], prefix + a[1]) + tuple(a[2:]))
+        raise ValueError(a[0])
+    if k == "not":
+        return ("not", _prefixed(f[1], prefix))
+    return (k, [_prefixed(x, prefix) for x in f[1]])
+
+
+def check_shared(rs: int, rs2: int, fs: int, stacked: bool, piped: bool, draw: int) -> bool:
+    """The same filter(s) applied to TWO rules of one collection (optionally converted through a pipeline that
+    renames every field): each rule's query is (rule) AND (filter), as if the filter had been applied to it alone."""
+    fnames, fcond = FILTER_SETS[fs]
+    if "them" in fcond and any(n.startswith("_") for n in fnames):
+        return True
+    ls = {"category": "a"}
+    t1 = rule_doc(*RULE_SETS[rs], ls)
+    t2 = rule_doc(*RULE_SETS[rs2], ls, OTHER, "second", 5)
+    filters = [filter_doc(fnames, fcond, ls, "any", 0)]
+    if stacked:
+        filters.append(filter_doc(["g1"], "not g1", ls, "any", 1))
+    try:
+        got = convert_docs([t1, t2] + filters, DRAWS[draw], PREFIX_PIPE if piped else None)
+    except SigmaError:
+        return False
+    for title, doc, rnames in (("target", t1, RULE_SETS[rs][0]), ("second", t2, RULE_SETS[rs2][0])):
+        want = S.formula_of_rule(doc)
+        for f in filters:
+            ff = filter_formula(f)
+            want = [("and", [w, ff]) for w in want]
+        if piped:
+            want = [_prefixed(w, "win.") for w in want]
+        qs = got.get(title)
+        if qs is None or len(qs) != len(want):
+            return False
+        for q, w in zip(qs, want):
+            try:
+                f = Q.parse(q)
+            except Q.QuerySyntaxError:
+                return False
+            if "_filt_" in q and "_filt_zzzzzzzzzz_f1" not in rnames:
+                return False
+            if not equivalent(f, w)[0]:
+                return False
+    return True
+
+
+def c11_shared(rs: int, rs2: int, fs: int, stacked: bool, piped: bool, draw: int) -> bool:
+    """
+    pre: 0 <= rs < len(RULE_SETS) and 0 <= rs2 < 4
+    pre: 0 <= fs < len(FILTER_SETS)
+    pre: 0 <= draw < 2
+    post: _
+    """
+    a, b, f = sel(rs, len(RULE_SETS)), sel(rs2, 4), sel(fs, len(FILTER_SETS))
+    st, pp, dr = selb(stacked), selb(piped), sel(draw, 2)
+    with concrete_section():
+        ok = check_shared(a, b, f, st, pp, dr)
+    return fin(ok)
+
+
+def c11_shared_concrete(rs: int, rs2: int, fs: int, stacked: bool, piped: bool, draw: int) -> bool:
+    return check_shared(rs, rs2, fs, stacked, piped, draw)
+
+
 def c11_filter(rs: int, fs: int, fc: int, fp: int, fsv: int, rc: int, rp: int, rsv: int, rf: int, stacked: bool, draw: int) -> bool:
     """
     pre: P("RSLO", 0) <= rs < min(len(RULE_SETS), P("RSHI", 99))
@@ -220,6 +299,7 @@ OBLIGATIONS = (
     # applicability: log source relations x rule list forms
     + [Ob("c11_filter", {"MODE": 1, "RF": r}, 900) for r in range(9)]
     + [Ob("c11_logsource", {}, 300)]
+    + [Ob("c11_shared", {}, 900)]
     # thorough: names / conditions / stacking / draws crossed with category relations and rule-list forms
     + [Ob("c11_filter", {"MODE": 2, "RSLO": lo, "RSHI": lo + 1}, 2400, tier="thorough") for lo in range(len(RULE_SETS))]
 )
